@@ -73,11 +73,11 @@ Hypothesis Hmap : fix_map c = true.
 Lemma prog_read k bs : prog (read c k bs) bs k.
 Proof.
   unfold read. apply prog_tick. rewrite Hread. apply prog_lift.
-  intros a r H. apply take_length in H. lia.
+  intros a r H. rewrite read_exact_take in H. apply take_length in H. lia.
 Qed.
 
 Lemma prog_exact k bs : prog (lift (read_exact k bs)) bs k.
-Proof. apply prog_lift. intros a r H. apply take_length in H. lia. Qed.
+Proof. apply prog_lift. intros a r H. rewrite read_exact_take in H. apply take_length in H. lia. Qed.
 
 (* if-then-else helpers *)
 Lemma prog_if {A} (b : bool) (x y : M (A * list byte)) bs k : prog x bs k -> prog y bs k -> prog (if b then x else y) bs k.
